@@ -7,6 +7,10 @@ and of the Barlat second-derivative kernels (internals of both headers):
     vp[i] - vp[j] is reached only where the coincidence test of that pair was
     decided negatively - directly, or because one member was decided coincident
     with an index that was decided distinct from the other (rules/C05.py);
+ R3 limit coefficients: the coincident-eigenvalue limit
+    ((X[a] + X[b] - 2 X[c]) / 2) * (nIJ ^ nIJ) uses the diagonal components of I
+    and J and their cross component, according to the layout of the 6-vector X
+    read from the terms X[k] * (nA ^ nB) of the same kernels;
  R2 coupling: in every term (nIJ ^ nIJ) / (vp[a] - vp[b]) or
     q / (vp[a] - vp[b]) * (nIJ ^ nIJ), {a, b} = {I, J}.
 Not decided: value / normal / second-derivative consistency, homogeneity,
@@ -29,13 +33,17 @@ def run(tier):
                 funcs=r"^tfel::material::(internals::)?(compute|complete)(Hosford|Barlat|Baralat)", flags_for=lambda u: (header_flags(), VERIF))
     funcs = [f for f in load_functions(d) if f.entry is not None]
     rep.count("instantiations analysed", len(funcs))
+    lay = C05.layout_of(funcs)
     for f in sorted(funcs, key=lambda g: g.display):
+        C05.limit_rule(rep, f, lay)
         C05.guard_rule(rep, f)
         C05.coupling_rule(rep, f)
         C05.orientation_rule(rep, f)
     rep.floor("instantiations analysed", 10)
-    rep.floor("divisions by an eigenvalue difference", 20)
-    rep.floor("coupling terms q * (nIJ ^ nIJ)", 15)
+    # floors are the counts of the Barlat kernels alone: a Hosford kernel rewritten in the per-pair style of Barlat keeps them
+    rep.floor("divisions by an eigenvalue difference", 8)
+    rep.floor("coupling terms q * (nIJ ^ nIJ)", 8)
+    rep.floor("coincident-eigenvalue limit coefficients", 8)
     rep.assumptions += ["structural clauses only; eigenvalues are recognised by the name vp and mixed eigen-tensors by the names nIJ",
                         "the criteria that are not written on eigenvalues (Hill, Cazacu, Drucker, Mohr-Coulomb, GTN, ...) are not covered"]
     return rep
